@@ -30,7 +30,7 @@ def to_model(shape):
         segs.append(tm.Seg(objs, s.get('nchunks', 1), meta=s.get('meta', True), newobj=s.get('newobj', True),
                            inter=s.get('inter', False), big=s.get('big', False), trunc=s.get('trunc', 0),
                            unknown_len=s.get('unknown_len', False), version=s.get('version', 4713),
-                           raw_flag=s.get('raw_flag', True)))
+                           raw_flag=s.get('raw_flag', True), pad=s.get('pad', 0)))
     return segs
 
 
